@@ -42,6 +42,11 @@ def run(pid, tier, seed, replay=None):
                                {"op": "compare", "o": 1, "o2": 1}, {"op": "destroy", "o": 1}])
             sweeps.append([{"op": "construct", "o": 1}, {"op": "fit", "o": 1, "good": True, "armed": k}, {"op": "fit", "o": 1, "good": True, "armed": -1},
                            {"op": "writekey", "o": 1, "key": 1, "armed": k}, {"op": "writekey", "o": 1, "key": 2, "armed": k}, {"op": "write", "o": 1, "armed": -1}, {"op": "destroy", "o": 1}])
+        for k in range(0, 4):      # overwrite / insert / remove of keys with the k-th allocation of the call failing
+            for f in (1, 2, 3):
+                sweeps.append([{"op": "construct", "o": 1}, {"op": "read", "o": 1, "file": f, "armed": -1}, {"op": "writekey", "o": 1, "key": 1, "armed": -1},
+                               {"op": "writekey", "o": 1, "key": 2, "armed": -1}, {"op": "writekey", "o": 1, "key": 1, "armed": k}, {"op": "writekey", "o": 1, "key": 2, "armed": k},
+                               {"op": "writemem", "o": 1, "armed": -1}, {"op": "removekey", "o": 1, "key": 1}, {"op": "writekey", "o": 1, "key": 3, "armed": k}, {"op": "destroy", "o": 1}])
         for f in (11, 12, 13, 14, 15, 16):
             sweeps.append([{"op": "construct", "o": 1}, {"op": "read", "o": 1, "file": f, "armed": -1}, {"op": "readmem", "o": 1, "file": f, "armed": -1},
                            {"op": "read", "o": 1, "file": 1, "armed": -1}, {"op": "read", "o": 1, "file": 2, "armed": -1}, {"op": "destroy", "o": 1},
